@@ -1,6 +1,8 @@
 package harness
 
 import (
+	"io"
+	"runtime"
 	"bytes"
 	"fmt"
 	"math"
@@ -435,6 +437,88 @@ func c03Fonts(r *run.Run) {
 		})
 }
 
+// ---- concurrent writers: interleavings at the destination's Write calls ----
+
+type c03Job struct {
+	name string
+	run  func(w io.Writer) (int64, error)
+}
+
+func c03Jobs() []c03Job {
+	hw := func(name string, scaler uint32, tables map[string][]byte) c03Job {
+		return c03Job{name, func(w io.Writer) (int64, error) {
+			t := map[string][]byte{}
+			for k, v := range tables {
+				t[k] = append([]byte{}, v...)
+			}
+			return header.Write(w, scaler, t)
+		}}
+	}
+	jobs := []c03Job{
+		hw("header.Write{head:54}", header.ScalerTypeTrueType, map[string][]byte{"head": c03Fill(54, 0, "head")}),
+		hw("header.Write{head:12,glyf:5}", header.ScalerTypeApple, map[string][]byte{"head": c03Fill(12, 1, "head"), "glyf": c03Fill(5, 0, "glyf")}),
+		hw("header.Write{OS/2:5,abcd:1,zzzz:4}", header.ScalerTypeCFF, map[string][]byte{"OS/2": c03Fill(5, 0, "OS/2"), "abcd": c03Fill(1, 0, "abcd"), "zzzz": c03Fill(4, 1, "zzzz")}),
+	}
+	for kind := 0; kind < 2; kind++ {
+		f, _ := FontFromChoices(gen.FontOpts{Compact: true}, kind)
+		jobs = append(jobs, c03Job{"Font.Write(" + gen.KindNames[kind] + ")", func(w io.Writer) (int64, error) { return f.Write(w) }})
+	}
+	return jobs
+}
+
+func c03Interleaved(r *run.Run) {
+	bound := 3
+	if !r.Quick() {
+		bound = 5
+	}
+	jobs := c03Jobs()
+	solo := make([][]byte, len(jobs))
+	for i, j := range jobs {
+		buf := &bytes.Buffer{}
+		if _, err := j.run(buf); err != nil {
+			explore.Fatal("C03.interleaved: %s fails when run alone: %v", j.name, err)
+		}
+		solo[i] = buf.Bytes()
+	}
+	r.Explore(explore.Config{Name: "C03.interleaved", Bound: bound, Workers: 1, Deadline: r.PartDeadline(0.5)},
+		fmt.Sprintf("two goroutines writing different containers / fonts at the same time (3 header.Write table maps, Font.Write of a glyf and of a CFF font; all unordered pairs incl. the same job twice) under a cooperative scheduler that can preempt at every Write call of the destination: all schedules with <= %d preemptions; each file must be a well-formed container (independent walker) and byte-identical to the file written alone", bound),
+		func(c *explore.Ctx) {
+			a := c.Choose(len(jobs), "job of goroutine 0")
+			b := a + c.Choose(len(jobs)-a, "job of goroutine 1")
+			sel := []int{a, b}
+			var schedule []int
+			c.Sample(func() any {
+				return map[string]any{"jobs": []string{jobs[a].name, jobs[b].name}, "schedule": schedule}
+			})
+			var bodies []func(io.Writer) string
+			for _, k := range sel {
+				j := jobs[k]
+				bodies = append(bodies, func(w io.Writer) string {
+					n, err := j.run(w)
+					return fmt.Sprintf("n=%d err=%v", n, err)
+				})
+			}
+			results, outputs := coRun(c, bodies, &schedule)
+			if len(schedule) > 2 {
+				c.Nontrivial()
+			}
+			sig := jobs[a].name + " || " + jobs[b].name
+			for g, k := range sel {
+				want := fmt.Sprintf("n=%d err=<nil>", len(solo[k]))
+				if results[g] != want {
+					c.FailObserved("C03.interleaved", sig, "goroutine %d (%s) returned %s, want %s; schedule %v", g, jobs[k].name, results[g], want, schedule)
+					continue
+				}
+				if _, probs := refsfnt.Walk(outputs[g]); len(probs) > 0 {
+					c.FailObserved("C03.interleaved", sig, "goroutine %d (%s) wrote a malformed container: %s; schedule %v (each number = which goroutine ran until its next Write call)", g, jobs[k].name, probs[0], schedule)
+				} else if !bytes.Equal(outputs[g], solo[k]) {
+					c.FailObserved("C03.interleaved", sig, "goroutine %d (%s) wrote different bytes than when run alone; schedule %v", g, jobs[k].name, schedule)
+				}
+			}
+			c.Outcome(a, b, fmt.Sprint(schedule))
+		})
+}
+
 func init() {
 	Register("C03", func(r *run.Run) {
 		r.Rule = "bounded exhaustive enumeration of table maps and generator fonts; independent container walker (refsfnt) and golang.org/x/image as second reader"
@@ -444,6 +528,10 @@ func init() {
 		}
 		c03Container(r)
 		c03Fonts(r)
+		// one P: the goroutines of the interleaving exploration share per-P caches (sync.Pool), as on a loaded machine
+		old := runtime.GOMAXPROCS(1)
+		c03Interleaved(r)
+		runtime.GOMAXPROCS(old)
 	})
 }
 
